@@ -9,7 +9,7 @@ package main
 //	frame fields offsetIP4/IP6/UDP/TCP/Payload, PayloadID, Src/DstAddr.MAC/IP/Port → offIP4 … dstPort (record updates)
 //	session      h.NICInfo.HostAddr4.MAC → cfg.hostMAC   RouterAddr4.MAC → cfg.routerMAC
 //	             h.NICInfo.HomeLAN4.Contains(x) → Netip.prefixContains cfg.lanAddr cfg.lanBits x        (`parseCfgReads`)
-//	statements   x := e / x = e / var x T / frame.F = e / return F, E
+//	statements   x := e / x = e / var x T / frame.F = e / frame.F += e / return F, E
 //	             if err := v.IsValid(); err != nil { … }    → match on the regenerated predicate genValid<T> (F10)
 //	             if [x = e;] c { … } [else …]                with Go's short-circuit evaluation of c
 //	             switch tag { case consts: … default: … }    constants through go/types, default last
@@ -1025,6 +1025,34 @@ func (x *parseTr) simple(d *pdef, ind string, st *pstate, s ast.Stmt) error {
 			if u, ok := old.ubs[l.lean]; ok {
 				st.ubs[l.lean] = u
 			}
+			return nil
+		}
+		if v.Tok == token.ADD_ASSIGN { // frame.F += e  is  frame.F = frame.F + e
+			r, p, ok := x.path(v.Lhs[0])
+			f := frameNatFields[p]
+			if !ok || r != x.frame || f == "" {
+				return fail("assignment %s", nodeText(s))
+			}
+			a, err := x.num(st, v.Lhs[0])
+			if err != nil {
+				return err
+			}
+			b, err := x.num(st, v.Rhs[0])
+			if err != nil {
+				return err
+			}
+			ub := new(big.Int).Add(a.ub, b.ub)
+			if !fitsType(ub, x.info.TypeOf(v.Lhs[0])) {
+				return fail("%s: value up to %v may not fit %v", nodeText(s), ub, x.info.TypeOf(v.Lhs[0]))
+			}
+			if a.pure && b.pure {
+				x.emit(d, ind, "let fr := { fr with %s := (%s + %s) }", f, a.s, b.s)
+			} else {
+				x.nc++
+				x.emit(d, ind, "let v%d ← (opN (· + ·) %s %s)", x.nc, plift(a), plift(b))
+				x.emit(d, ind, "let fr := { fr with %s := v%d }", f, x.nc)
+			}
+			st.ubs["fr."+f] = ub
 			return nil
 		}
 		if v.Tok != token.ASSIGN {
